@@ -2,3 +2,5 @@
 //! with `domain`.
 pub mod wire;
 pub mod b64;
+#[cfg(feature = "crypto")]
+pub mod tsig;
